@@ -177,7 +177,9 @@ def run_for(pid, root, rep, seed=0, jobs=16):
         if st in ('blind', 'noisy', 'bad-variant'):
             rep.error('selftest %s (%s): %s' % (name, st, msg))
     applied = summ['ok'] + summ['ok-error'] + summ['blind'] + summ['noisy']
-    if applied < max(1, len(res) // 2):
+    # generated transforms that find no site in a (small) function are not evidence of a stale self-test: only hand-written variants count
+    not_applicable = sum(1 for name, st, msg in res if st == 'skipped' and 'transform not applicable' in (msg or ''))
+    if applied < max(1, (len(res) - not_applicable) // 2):
         rep.error('selftest: only %d of %d variants applied to the current tree' % (applied, len(res)))
     rep.selftest = summ
     if not rep.quiet:
